@@ -660,6 +660,8 @@ def rule_validate_exact(rep):
         for v, minp in (("InsufficientInputBufferSize", pn[4]), ("InsufficientOutputBufferSize", pn[5])):
             if returns_err_variant(node["then"], v) is None:
                 continue
+            if any(y is not node and y.get("k") == "if" and returns_err_variant(y["then"], v) is not None for y in walk(node["then"])):
+                continue        # an enclosing `if mask[chan] { .. }`: the length guard is the inner one
             found += 1
             c = node["c"]
             other = [x["p"] for x in walk(c) if x.get("k") == "path" and x["p"] != minp]
